@@ -366,7 +366,8 @@ def writers_monotone(ctx, rep, rule):
                     if is_none:
                         from .common import only_used_by
                         inits = {g.qualname for g in ctx.prog.all_functions() if g.name == '__init__'}
-                        ok = f.name == '__init__' or only_used_by(ctx, f, inits) or _called_before_first_start(ctx, f)
+                        ok = f.name == '__init__' or only_used_by(ctx, f, inits) or \
+                            _called_before_first_start(ctx, f, node if f is r.RUN else None)
                         rep.check(ok, rule, site, f.qualname, "`%s`" % src(node),
                                   "the task registry is cleared while a run is in progress: a finished job "
                                   "becomes idle again and loses its result")
@@ -406,10 +407,13 @@ def writers_monotone(ctx, rep, rule):
                      trace(e.st))
 
 
-def _called_before_first_start(ctx, f):
+def _called_before_first_start(ctx, f, node=None):
     """f is only called from the run, and only before any start (checked on the log)"""
     an, ip, out = ctx.run()
     evs = [e for e in an.events('STORE') if e.fr.func is f]
+    if node is not None:
+        # (a store of the run itself: that very statement)
+        evs = [e for e in evs if stmt_of(e.node) is node or e.node is node]
     return bool(evs) and all(e.data['nstart'] == 0 for e in evs)
 
 
